@@ -40,9 +40,11 @@ class Diagonalization(Function):
         if ctx.batch_shape is None:
             q_mat = q_mat.unsqueeze(-3)
             t_mat = t_mat.unsqueeze(-3)
-        if t_mat.ndimension() == 3:  # If we only used one probe vector
-            q_mat = q_mat.unsqueeze(0)
-            t_mat = t_mat.unsqueeze(0)
+        # We only use one probe vector, and lanczos_tridiag drops the probe dimension in that case: add it back
+        # (unconditionally - testing the number of dimensions confuses a batch dimension with the probe dimension,
+        # and the final squeeze(0) then removed a size-1 eigenvalue dimension for unbatched operators)
+        q_mat = q_mat.unsqueeze(0)
+        t_mat = t_mat.unsqueeze(0)
 
         mins = torch.diagonal(t_mat, dim1=-1, dim2=-2).min(dim=-1, keepdim=True)[0]
         jitter_val = settings.tridiagonal_jitter.value()
